@@ -32,9 +32,41 @@ def names_structs():
     return out
 
 
+def access_pair_structs():
+    """every ordered pair of (field kind, access) on a small base, and every access triple of three bools: what is generated for a
+    field must not depend on the kind or the access of the fields declared before it"""
+    def mk(kind, pos, acc):
+        if kind == 'b':
+            return Field([(pos, 1)], 'b', access=acc, family='ACCPAIR'), 1
+        if kind == 'u3':
+            return Field([(pos, 3)], 'u', access=acc, family='ACCPAIR'), 3
+        if kind == 'n8':
+            return Field([(pos, 8)], 'n', access=acc, family='ACCPAIR'), 8
+        if kind == 'arrb':
+            return Field([(pos, 1)], 'b', arr=(2, 1), access=acc, family='ACCPAIR'), 2
+        if kind == 'nc':
+            return Field([(pos, 1), (pos + 2, 1)], 'u', access=acc, family='ACCPAIR'), 3
+        return Field([(pos, 2)], 'e', enum=ex_enum(2), access=acc, family='ACCPAIR'), 2
+    kinds = ('b', 'u3', 'n8', 'arrb', 'nc', 'e2')
+    accs = ('w', 'r', 'rw')
+    out = []
+    for k1 in kinds:
+        for a1 in accs:
+            for k2 in kinds:
+                for a2 in accs:
+                    f1, adv = mk(k1, 0, a1)
+                    f2, _ = mk(k2, adv, a2)
+                    out.append(Struct(16, [f1, f2], family='ACCPAIR', passes=[('alpha', 'full')] if 'n8' in (k1, k2) else [('full', 'full')]))
+    for a1 in accs:
+        for a2 in accs:
+            for a3 in accs:
+                out.append(Struct(8, [mk('b', 0, a1)[0], mk('b', 1, a2)[0], mk('b', 2, a3)[0], mk('u3', 3, 'rw')[0]], family='ACCPAIR', passes=[('full', 'full')]))
+    return out
+
+
 def contig_set(tier):
     """C01 / C02 (+ C16): contiguous fields of every kind."""
-    structs = names_structs()
+    structs = names_structs() + access_pair_structs()
     for n in range(1, 17):
         structs += L.pack(n, L.contig(n), 'CONTIG', passes=[('full', 'full')])
     if tier == 'quick':
